@@ -1,14 +1,14 @@
 package main
 
 import (
-	"encoding/json"
-	"path/filepath"
-	"os"
-	"regexp"
 	"context"
-	"encoding/hex"
 	"encoding/binary"
+	"encoding/hex"
+	"encoding/json"
 	"fmt"
+	"os"
+	"path/filepath"
+	"regexp"
 	"sort"
 	"strings"
 	"time"
@@ -428,7 +428,7 @@ func runC01(c *runCtx) {
 	_ = gosqlx.Validate
 }
 
-var lexPieces = regexp.MustCompile(`[A-Za-z_][A-Za-z0-9_]*|[0-9]+(?:\.[0-9]+)?|'(?:[^']|'')*'|"[^"]*"|`+"`[^`]*`"+`|::|<>|<=|>=|!=|\|\||->>|->|[^\s]`)
+var lexPieces = regexp.MustCompile(`[A-Za-z_][A-Za-z0-9_]*|[0-9]+(?:\.[0-9]+)?|'(?:[^']|'')*'|"[^"]*"|` + "`[^`]*`" + `|::|<>|<=|>=|!=|\|\||->>|->|[^\s]`)
 
 var parserWordRe = regexp.MustCompile(`"([A-Z][A-Z_]{1,24})"`)
 
